@@ -69,11 +69,33 @@ def run(tier, rng, C):
         v += vv
         stats = C.merge_stats(stats, st)
     stats["samples"] = stats["samples"][:6]
+    # every requested byte count: each of the n byte positions must actually vary between draws
+    # (a constant or zero-filled tail shows up here) and draws of >= 4 bytes must all differ
+    draws = 48
+    fails = []
+    per_n = {}
+    for n in list(range(1, 97)) + [200]:
+        toks = [o.split(" ")[1] for o in C.run_impl(["CSRF %d" % n for _ in range(draws)]) if o.startswith("ok ")]
+        raws = [dec(C.untb(t).decode()) for t in toks]
+        const = [i for i in range(n) if len({r[i] for r in raws if len(r) == n}) < 2]
+        if const:
+            fails.append("csrf n=%d: byte position(s) %s never vary over %d draws" % (n, const[:6], draws))
+        if n >= 4 and len(set(toks)) != len(toks):
+            fails.append("csrf n=%d: repeated values among %d draws" % (n, draws))
+        per_n[n] = len(toks)
+    for n in range(32, 97):
+        toks = [o.split(" ")[1] for o in C.run_impl(["PKCERAND %d" % n for _ in range(draws)]) if o.startswith("ok ")]
+        raws = [dec(C.untb(t).decode()) for t in toks]
+        const = [i for i in range(n) if len({r[i] for r in raws if len(r) == n}) < 2]
+        if const:
+            fails.append("pkce n=%d: byte position(s) %s never vary over %d draws" % (n, const[:6], draws))
+        if len(set(toks)) != len(toks):
+            fails.append("pkce n=%d: repeated values among %d draws" % (n, draws))
+    stats["per_byte_count_variation_draws"] = draws
     # supporting statistics
     total = 200000 if tier == "quick" else 4000000
     threads = 8 if tier == "quick" else 16
     procs = 4 if tier == "quick" else 16
-    fails = []
     sizes = {}
     for kind, nbytes in (("csrf", 16), ("pkce", 32)):
         seq = C.run_impl(["RANDBULK %s %d 1" % (kind, total // 4)])[0].split(",")
@@ -95,7 +117,7 @@ def run(tier, rng, C):
         v += 1
     stats["rule"] = ("CSRF byte counts 0..=96 (and 200, 1000), %d draws each, judged by the extracted monitor (alphabet, length ceil(4n/3), canonical decoding to n bytes); "
                      "verifier counts are covered by C04; statistics: %d default-size values per kind (sequential, %d threads, %d processes): pairwise distinct, per-bit frequency, "
-                     "lag-1 correlation of successive values, adjacent-bit correlation, all within 6.5 sigma; non-trivial = a non-empty token" % (reps, total // 4 * 3, threads, procs))
+                     "lag-1 correlation of successive values, adjacent-bit correlation, all within 6.5 sigma; for EVERY byte count 1..=96 (state) and 32..=96 (verifier) 48 draws in which each byte position must vary and all values differ; non-trivial = a non-empty token" % (reps, total // 4 * 3, threads, procs))
     return v, stats
 
 
